@@ -292,9 +292,12 @@ func cfgPassThrough(c *Ctx, r *Report, rule string, fieldFilter func(f *types.Va
 		if fn.Parent() != nil || fn.Signature.Recv() != nil || fn.Object() == nil || !fn.Object().Exported() {
 			continue
 		}
+		isConf := func(t types.Type) bool {
+			return types.Identical(t, conf) || types.Identical(t, types.NewPointer(conf))
+		}
 		pi := -1
 		for i, p := range fn.Params {
-			if types.Identical(p.Type(), conf) {
+			if isConf(p.Type()) {
 				pi = i
 			}
 		}
@@ -312,7 +315,7 @@ func cfgPassThrough(c *Ctx, r *Report, rule string, fieldFilter func(f *types.Va
 				if call, ok := in.(*ssa.Call); ok {
 					if sc := call.Common().StaticCallee(); sc != nil {
 						for _, p := range sc.Params {
-							if types.Identical(p.Type(), conf) {
+							if isConf(p.Type()) {
 								noInl[sc] = true
 							}
 						}
@@ -322,23 +325,46 @@ func cfgPassThrough(c *Ctx, r *Report, rule string, fieldFilter func(f *types.Va
 		}
 		fr := an.newFrame(fn, nil, nil)
 		fr.run(dnfTrue())
-		given := fr.val(fn.Params[pi])
+		// the configuration value behind an argument or parameter (by value, or by pointer to a
+		// local copy whose address only this call receives)
+		confValue := func(v AV, at *ssa.Call) AV {
+			p, isPtr := v.(APtr)
+			if !isPtr || p.obj == nil {
+				return v
+			}
+			if p.obj.symbolic {
+				return fr.loadPath(p.obj, p.path, conf, at)
+			}
+			if p.obj.alloc != nil && p.obj.alloc.Referrers() != nil {
+				for _, rf := range *p.obj.alloc.Referrers() {
+					if cl, isCall := rf.(ssa.CallInstruction); isCall && cl != ssa.CallInstruction(at) {
+						return v // somebody else got hold of the copy
+					}
+				}
+			}
+			if lv, ok := fr.orderedLoad(p.obj, p.path, at); ok {
+				return lv
+			}
+			return v
+		}
+		given := confValue(fr.val(fn.Params[pi]), nil)
 		handed := 0
 		for _, cr := range an.calls {
 			if cr.frame != fr || cr.callee == nil || !noInl[cr.callee] {
 				continue
 			}
 			for ai, p := range cr.callee.Params {
-				if !types.Identical(p.Type(), conf) || ai >= len(cr.args) {
+				if !isConf(p.Type()) || ai >= len(cr.args) {
 					continue
 				}
 				handed++
+				argv := confValue(cr.args[ai], cr.instr)
 				for i := 0; i < cst.NumFields(); i++ {
 					if !fieldFilter(cst.Field(i)) {
 						continue
 					}
 					r.instance(rule, 1)
-					got := describeAV(an.u.fieldOf(cr.args[ai], i))
+					got := describeAV(an.u.fieldOf(argv, i))
 					wantv := describeAV(an.u.fieldOf(given, i))
 					if got == wantv {
 						r.ok(rule, id, fmt.Sprintf("hands the caller's ClientConfig.%s on to %s unchanged", cst.Field(i).Name(), cr.callee.Name()), posOfCall(c, cr), true)
